@@ -271,6 +271,12 @@ int main(int argc, char **argv)
 		break;
 	}
 
+	/* listings are printed through stdio: find out if they got through */
+	if (fflush(stdout) != 0 || ferror(stdout)) {
+		perror("writing to standard output");
+		goto out;
+	}
+
 	status = EXIT_SUCCESS;
 out:
 	sqfs_dir_tree_destroy(n);
